@@ -2,6 +2,7 @@ package c02
 
 import (
 	"fmt"
+	"os"
 	"regexp"
 	"runtime"
 	"strings"
@@ -166,4 +167,22 @@ func fatalSite(log string) string {
 		}
 	}
 	return best
+}
+
+// devDump appends one TSV line per crash to $C02_DUMP (development aid for
+// grouping crash sites; unset in every registered command).
+func devDump(fields ...string) {
+	p := os.Getenv("C02_DUMP")
+	if p == "" {
+		return
+	}
+	f, err := os.OpenFile(p, os.O_APPEND|os.O_CREATE|os.O_WRONLY, 0o644)
+	if err != nil {
+		return
+	}
+	defer f.Close()
+	for i := range fields {
+		fields[i] = strings.ReplaceAll(strings.ReplaceAll(fields[i], "\t", " "), "\n", " ")
+	}
+	fmt.Fprintln(f, strings.Join(fields, "\t"))
 }
